@@ -116,6 +116,31 @@ theorem roundtrip_partial (c : Ctx) (h : ctxReadable c = true) :
     obtain ⟨h1, h2⟩ := setItem_spec (bindAll d) (d.length != singleBindingCount) k v hs h.1.2 h.2
     simp only [readCtx, renderCtx, expected, fromDict]
     rw [readData_renderExpr _ 0 false h1, h2, denoteBs_bindAll]
+  | setItemOn d ml k v =>
+    simp only [ctxReadable, Bool.and_eq_true] at h
+    have hs : exprReadable (.aset (bindAll d) ml) = true := by
+      have := bindValue_readable (.dict d) h.1.1
+      simpa [bindValue, exprReadable] using this
+    obtain ⟨h1, h2⟩ := setItem_spec (bindAll d) ml k v hs h.1.2 h.2
+    simp only [readCtx, renderCtx, expected]
+    rw [readData_renderExpr _ 0 false h1, h2, denoteBs_bindAll]
+
+/-- For values of the property's domain the side condition is exactly "avoids the three documented
+    defects": no negative number as a list element, no float whose repr lacks a `.`, no integer
+    outside 64 bits (`ctxAvoids`; the harness classifies failing inputs with the same tests). -/
+theorem readable_iff_avoids (c : Ctx) (hd : ctxInDomain c = true) : ctxReadable c = ctxAvoids c :=
+  ctxReadable_eq_avoids c hd
+
+/-- For the repr of a finite Python float, being a Nix float token is exactly having a `.`. -/
+theorem float_repr_readable_iff_dot (r : Text) (h : isPyFloatRepr r = true) :
+    isNixFloat (unsignedRepr r) = (unsignedRepr r).contains '.' :=
+  pyFloatRepr_nixFloat_iff_dot r h
+
+/-- **The property on its domain, minus the documented defects.** Every value of the domain that
+    avoids the three defects is read back exactly, in every context. -/
+theorem roundtrip_domain (c : Ctx) (hd : ctxInDomain c = true) (ha : ctxAvoids c = true) :
+    readCtx c (renderCtx c) = some (expected c) :=
+  roundtrip_partial c (by rw [readable_iff_avoids c hd]; exact ha)
 
 /-! ## 3. The full statement, and where the code violates it -/
 
@@ -199,6 +224,9 @@ example : ctxReadable (.fromDict [("a".toList, .elem (.int (-5))), ("b".toList, 
 example : ctxReadable (.setItem [("a".toList, .elem (.int 1))] "a".toList (.dict [("n".toList, .elem (.float "-0.0".toList))])) = true := by
   decide
 example : renderCtx (.fromDict [("k".toList, .elem (.list [.int 1, .int 2]))]) = "{ k = [\n    1\n    2\n  ]; }".toList := by
+  decide
+example : ctxInDomain (.setItemOn [("a".toList, .elem (.int 1))] true "k".toList (.dict [("x".toList, .elem (.float "1.5e-07".toList))])) = true ∧
+    ctxAvoids (.setItemOn [("a".toList, .elem (.int 1))] true "k".toList (.dict [("x".toList, .elem (.float "1.5e-07".toList))])) = true := by
   decide
 example : ctxInDomain (.list [.float "1e+16".toList, .int (-1)]) = true ∧
     ctxReadable (.list [.float "1e+16".toList]) = false ∧ ctxReadable (.list [.int (-1)]) = false := by decide
